@@ -722,6 +722,93 @@ def rule_last_touch(ctx):
         raise AnalysisBroken("only %d teardown gates (wait loops whose continuation finalizes a mutex) recognised" % gates)
 
 
+# ---------------------------------------------------------------------------
+# R10: a waiter that is unlinked is also completed
+
+LIST_TAKE = ("nni_list_first", "nni_list_last", "nni_list_next", "nni_list_prev")
+
+
+def parked_fields(prog):
+    """record -> fields that hold parked operations: aio lists (nni_aio_list_init) and nni_aio* pointer fields"""
+    out = defaultdict(set)
+    for g in prog.functions:
+        for c in g.calls("nni_aio_list_init"):
+            lf = last_field(g.expand(c.node["args"][0])) if c.node["args"] else None
+            if lf:
+                rec, fld = lf.split(".", 1)
+                out[rec].add(fld)
+    for rn, rv in prog.records.items():
+        for fld in rv.get("fields", ()):
+            if (fld.get("t") or "").replace(" ", "") in ("nni_aio*", "nng_aio*", "structnng_aio*"):
+                out[rn].add(fld["n"])
+    return out
+
+
+def rule_unlinked(ctx):
+    r = ctx.rule("C10.R10", "T2", "close completes everything: a function that takes an object holding parked operations (a record "
+                 "with an aio list or a parked-aio field) out of the list it was waiting on does something with it (reads a field, stores it, "
+                 "hands it to another function) -- an object that is unlinked and then dropped on the floor leaves whatever it "
+                 "was waiting with pending forever", floor=10)
+    prog = ctx.prog
+    parked = parked_fields(prog)
+    n = 0
+    for f in prog.functions:
+        if f.cfg_failed:
+            continue
+        loc = f.locals()
+        params = {p["n"] for p in f.params}
+        for c in f.calls(("nni_list_remove",)):
+            if len(c.node["args"]) < 2:
+                continue
+            v = f.expand(c.node["args"][1])
+            if v is None or v.get("k") != "var" or v["n"] in params:
+                continue
+            d = loc.get(v["n"]) or {}
+            rec = d.get("rec") or (v.get("t") or "").replace("*", "").replace("struct ", "").strip()
+            if rec not in parked:
+                continue
+            # the element comes from a list traversal in this function
+            taken = any(x is not None and x.get("k") == "call" and x.get("fn") in LIST_TAKE for _, x in G.var_defs(f, v["n"]))
+            if not taken:
+                continue
+            n += 1
+            used = None
+            for t in f.sites():
+                nd = t.node
+                if nd.get("k") == "mem" and nd.get("b") is not None:
+                    b = f.expand(nd["b"])
+                    if b is not None and b.get("k") == "var" and b["n"] == v["n"]:
+                        used = "%s->%s used (line %s)" % (v["n"], nd["f"], t.line)
+                        break
+                if nd.get("k") == "call" and not (nd.get("fn") or "").startswith("nni_list_"):
+                    for a in nd["args"]:
+                        a = f.expand(a) if a is not None else None
+                        if a is not None and a.get("k") == "var" and a["n"] == v["n"]:
+                            used = "%s handed to %s (line %s)" % (v["n"], nd.get("fn") or "a slot", t.line)
+                            break
+                    if used:
+                        break
+                if nd.get("k") == "asg" and nd["lhs"].get("k") != "var":
+                    e = f.expand(nd["rhs"])
+                    if e is not None and e.get("k") == "var" and e["n"] == v["n"]:
+                        used = "%s stored (line %s)" % (v["n"], t.line)
+                        break
+                if nd.get("k") == "ret" and nd.get("e") is not None:
+                    e = f.expand(nd["e"])
+                    if e is not None and e.get("k") == "var" and e["n"] == v["n"]:
+                        used = "%s returned (line %s)" % (v["n"], t.line)
+                        break
+            if used:
+                r.ob(f, "%s unlinked at line %s: %s" % (v["n"], c.line, used))
+            else:
+                ctx.fail(r, f, "%s unlinked without looking at its parked operations" % v["n"], c.line,
+                         "%s takes %s (a %s, which parks operations in %s) off %s at line %s but neither examines those "
+                         "operations nor passes the object on: whatever it was waiting with is never completed"
+                         % (f.name, v["n"], rec, "/".join(sorted(parked[rec])), show(c.node["args"][0]), c.line))
+    if n < 10:
+        raise AnalysisBroken("only %d unlink sites of objects with parked operations" % n)
+
+
 def rule_closeall(ctx):
     """C10.R5: a close / fini function looks at every parked-operation field it handles on every path"""
     from .. import guards as G
@@ -769,6 +856,7 @@ def run(ctx):   # noqa: F811
     ctx.guard(rule_refs)
     ctx.guard(rule_closeall)
     ctx.guard(rule_last_touch)
+    ctx.guard(rule_unlinked)
     ctx.guard(rule_wakeups)
     from . import c02
     ctx.guard(c02.rule_a7)
